@@ -616,7 +616,7 @@ func c17BuildSequences(g *GenOutput, req *Request, rng *rand.Rand, n, length int
 		}
 		return WireHex(m)
 	}
-	const jsonCT, protoCT = "application/json", "application/x-protobuf"
+	const jsonCT, protoCT, octetCT = "application/json", "application/x-protobuf", "application/octet-stream"
 	var out []*c17Seq
 	for qi := 0; qi < n; qi++ {
 		q := &c17Seq{par: []int{4, 8, 16}[rng.Intn(3)]}
@@ -627,6 +627,8 @@ func c17BuildSequences(g *GenOutput, req *Request, rng *rand.Rand, n, length int
 			{Service: "Audit", Defaults: [][2]string{{"X-Client-Tag", "a3"}}},
 			{Service: "Notes", CT: jsonCT, Defaults: [][2]string{{"X-Client-Tag", "c4"}}, Helper: map[string]string{"Trace": "tr4"}},
 			{Service: "Audit", CT: protoCT, Defaults: [][2]string{{"X-Call-Tag", "a5"}}},
+			// client-level content type given as the binary alias
+			{Service: "Notes", CT: octetCT, Defaults: [][2]string{{"X-Client-Tag", "c6"}}},
 		}
 		effCT := func(cl *c17SeqClient, callCT string) string {
 			if callCT != "" {
@@ -637,6 +639,7 @@ func c17BuildSequences(g *GenOutput, req *Request, rng *rand.Rand, n, length int
 			}
 			return jsonCT
 		}
+		forceCT := "" // systematic part: the per-call content type of the next step with options
 		addStep := func(ci int, stage string, withOpts bool) {
 			cl := q.clients[ci]
 			svc := svcByName[cl.Service]
@@ -659,11 +662,18 @@ func c17BuildSequences(g *GenOutput, req *Request, rng *rand.Rand, n, length int
 						st.Helper = map[string]string{"Idem": fmt.Sprintf("i%d", k)}
 					}
 				}
-				switch rng.Intn(3) {
+				// every value the per-call content-type option accepts: the two named constants, the
+				// binary alias the emitted marshalRequest/unmarshalResponse also take, or no option
+				switch rng.Intn(5) {
 				case 0:
 					st.CallCT = protoCT
 				case 1:
 					st.CallCT = jsonCT
+				case 2, 3:
+					st.CallCT = octetCT
+				}
+				if forceCT != "" {
+					st.CallCT = forceCT
 				}
 			}
 			// the method: a marshal failure needs a body route and a JSON content type
@@ -716,6 +726,18 @@ func c17BuildSequences(g *GenOutput, req *Request, rng *rand.Rand, n, length int
 		}
 		dirtyStages := []string{"marshal", "marshal", "marshal", "create", "create", "transport", "4xx", "5xx", "garbage", "ok"}
 		plainStages := []string{"ok", "ok", "ok", "ok", "ok", "ok", "transport", "4xx", "5xx", "garbage", "marshal", "create"}
+		if qi == n-1 {
+			// systematic: on every instance every value of the per-call content-type option, each
+			// followed by a plain call on the SAME instance
+			for ci := range q.clients {
+				for _, ct := range []string{octetCT, jsonCT, protoCT} {
+					forceCT = ct
+					addStep(ci, "ok", true)
+					forceCT = ""
+					addStep(ci, "ok", false)
+				}
+			}
+		}
 		for len(q.steps) < length {
 			ci := rng.Intn(len(q.clients))
 			stage := dirtyStages[(qi+len(q.steps)+rng.Intn(len(dirtyStages)))%len(dirtyStages)]
